@@ -50,6 +50,8 @@ pub const TABLE: &[(&str, &str, &str)] = &[
     ("align", "ALIGNPTS halves the distance (odd values, both signs); ALIGNRP", "distances 0, +-1, +-2, +-3, +-63, +-65 set with SCFS"),
     ("isect", "parallel-line test 19*|discriminant| <= |dot|", "line B rotated against line A by 0..4 degrees in fine steps, plus perpendicular and degenerate (zero length) lines"),
     ("vectors", "projection / dual projection / freedom vector in SCFS, GC, MD, MDRP", "SPVTL/SFVTL/SDPVTL[a] on axis-parallel, 45 degree and nearly-parallel point pairs; SPVFS/SFVFS of unnormalised vectors; SFVTPV; moves with fv.pv small"),
+    ("fdotp", "F_dot_P = pv . fv: the clamp |F_dot_P| < 0x400 -> 0x4000, the x-only / y-only move fast paths (F_dot_P == 0x4000 with an axis freedom vector), fv component == 0",
+     "pv on an axis, fv := SFVFS(k, 16352) resp. (16352, k) with k in 1020..1028, +-, 0 (vectors are scale free: the same F_dot_P at every ppem): F_dot_P = 1023 / 1024 / 1025 exactly; then SCFS, MSIRP, MDRP, SHP, ALIGNRP, IP along that freedom vector; pv := SPVFS of the same vectors against fv on an axis"),
     ("flip", "FLIPPT/FLIPRGON/FLIPRGOFF ranges", "lo==hi, full range, first/last point, loop counts"),
     ("info", "MPPEM/MPS/GETINFO selector bits x rendering target, INSTCTRL selectors/values in prep and glyph, SCANCTRL/SCANTYPE",
      "every single GETINFO selector bit and all-ones; INSTCTRL (selector,value) in {1,2,3}x{0,flag,other}; results stored into point coordinates"),
@@ -1269,6 +1271,55 @@ fn vectors(_thorough: bool) -> Vec<EdgeGlyph> {
     out
 }
 
+/// F_dot_P around the 0x400 clamp and the fast-path selection of move_point.
+fn fdotp(_thorough: bool) -> Vec<EdgeGlyph> {
+    let mut out = vec![];
+    let pts: Vec<(i16, i16, bool)> = vec![(0, 0, true), (400, 30, true), (380, 420, true), (-20, 400, true), (150, 120, true), (260, 140, true), (240, 300, true), (130, 280, true)];
+    let ends = vec![3, 7];
+    let ks: Vec<i32> = vec![0, 1, 512, 1000, 1020, 1022, 1023, 1024, 1025, 1026, 1030, 2000, -1, -1023, -1024, -1025, -1030];
+    for &k in &ks {
+        for axis in 0..2 {
+            for role in 0..2 {
+                for probe in 0..6 {
+                    let mut p = P::new();
+                    // one vector on an axis, the other one nearly perpendicular to it (its component along the axis is k / 2^14)
+                    let (vx, vy) = if axis == 0 { (k, 16352) } else { (16352, k) };
+                    if role == 0 {
+                        p.op(if axis == 0 { SPVTCA_X } else { SPVTCA_Y });
+                        p.push(&[vx, vy]).op(SFVFS);
+                    } else {
+                        p.op(if axis == 0 { SFVTCA_X } else { SFVTCA_Y });
+                        p.push(&[vx, vy]).op(SPVFS);
+                    }
+                    match probe {
+                        0 => {
+                            p.push(&[5, 300]).op(SCFS);
+                        }
+                        1 => {
+                            p.set(SRP0, 4).push(&[5, 70]).op(MSIRP);
+                        }
+                        2 => {
+                            p.set(SRP0, 4).push(&[6]).op(MDRP + 4);
+                        }
+                        3 => {
+                            p.push(&[4, 40]).op(SHPIX).set(SRP2, 4).push(&[5]).op(SHP);
+                        }
+                        4 => {
+                            p.set(SRP0, 4).push(&[6]).op(ALIGNRP);
+                        }
+                        _ => {
+                            p.push(&[4, 30]).op(SHPIX).set(SRP1, 4).set(SRP2, 6).push(&[5]).op(IP);
+                        }
+                    }
+                    p.op(IUP_X).op(IUP_Y);
+                    out.push(EdgeGlyph { label: format!("fdotp k={k} axis={axis} role={role} probe={probe}"), pts: pts.clone(), ends: ends.clone(), code: p.c });
+                }
+            }
+        }
+    }
+    out
+}
+
 fn flip(_thorough: bool) -> Vec<EdgeGlyph> {
     let mut out = vec![];
     let pts: Vec<(i16, i16, bool)> = (0..10i16).map(|i| ((i % 5) * 100 + (i / 5) * 30, (i / 5) * 300 + (i % 3) * 40, i % 3 != 1)).collect();
@@ -1464,6 +1515,7 @@ pub fn fonts(thorough: bool) -> Vec<EdgeFont> {
     add("isect", isect(thorough));
     add("vectors", vectors(thorough));
     add("flip", flip(thorough));
+    add("fdotp", fdotp(thorough));
     add("flow", flow(thorough));
     for (name, prep) in info_preps() {
         let mut glyphs = info_glyphs();
